@@ -901,7 +901,7 @@ def run(ctx: Ctx) -> Report:
         "rs-cpu composition twin: wide accesses inside internal memory 0x00-0xFA only (keyboard/E-port/SIO register "
         "block included, LCD port windows excluded: their address-decoded command/data ports are C15's subject); byte "
         "accesses in ascending address order; observation = MV A,(n) of the access's own bytes + all memory probes",
-        "device cells (py-emu: IMEM 0xF0-0xF2, LCD 0x2000-0x200F and 0xA000-0xAFFF; rs-cpu: IMEM 0xF0-0xFF, LCD "
+        "device cells (py-emu: IMEM 0xF0-0xF2, LCD 0x2000-0x2FFF and 0xA000-0xAFFF; rs-cpu: IMEM 0xF0-0xFF, LCD "
         "0x2000-0x2FFF and 0xA000-0xAFFF) are never value-checked; rs-cpu never targets IMEM 0xFB-0xFF",
         "RAM power-on content is injected through the backing store (external_memory slice / load_external)",
         "rs-cpu 24-bit accesses use MV [lmn],X / MV X,[lmn]: 20 significant bits",
